@@ -22,6 +22,7 @@ type c22In struct {
 	FSuffix string   `json:"fsuffix"`
 	CMult   int      `json:"cmult"`
 	CSuffix string   `json:"csuffix"`
+	Zone    int      `json:"zone"` // UTC offset (seconds) of the system timezone
 	Ticks   c21Chunk `json:"ticks"` // one price group with one float32 column, no Acc
 }
 
@@ -40,6 +41,9 @@ func c22Gen(r *rng.Rand, i int, tier string) interface{} {
 	}
 	p := c22Pairs[r.Intn(len(c22Pairs))]
 	in := c22In{FMult: p[0].(int), FSuffix: p[1].(string), CMult: p[2].(int), CSuffix: p[3].(string)}
+	if r.Chance(30) {
+		in.Zone = c21Zones[r.Intn(len(c21Zones))]
+	}
 	n := 1 + r.Intn(maxRows)
 	if r.Chance(3) {
 		n = 0
@@ -82,7 +86,7 @@ type c22Obs struct {
 
 func c22Exec(in *c22In) (obs c22Obs, err error) {
 	tickIn := func(mult int, suffix string) *c21In {
-		return &c21In{Kind: "tick", Mult: mult, Suffix: suffix, Runner: true, Chunks: []c21Chunk{in.Ticks}}
+		return &c21In{Kind: "tick", Mult: mult, Suffix: suffix, Runner: true, Zone: in.Zone, Chunks: []c21Chunk{in.Ticks}}
 	}
 	var csA *io.ColumnSeries
 	if obs.A, csA, err = c21Exec(tickIn(in.FMult, in.FSuffix)); err != nil {
@@ -96,6 +100,7 @@ func c22Exec(in *c22In) (obs c22Obs, err error) {
 	}
 	// B: the fine candler's output column series itself goes into the coarse CandleCandler
 	func() {
+		defer c21SetZone(in.Zone)()
 		defer func() {
 			if p := recover(); p != nil {
 				obs.B.Code, obs.B.Err = 2, fmt.Sprint(p)
@@ -121,6 +126,20 @@ func c22Divides(in *c22In) bool {
 	return f > 0 && c%f == 0
 }
 
+// c22ZoneOK mirrors the origin condition of divides_in_zone: the grids of the two timeframes (0001-01-01 UTC for
+// Sec/Min/H, local midnight for D) differ by a multiple of the fine window length.
+func c22ZoneOK(in *c22In) bool {
+	f := c21Dur(in.FMult, in.FSuffix)
+	const absEpoch = 62135596800
+	origin := func(suffix string) int64 {
+		if suffix == "D" {
+			return int64(in.Zone)
+		}
+		return absEpoch
+	}
+	return f > 0 && (origin(in.CSuffix)-origin(in.FSuffix))%f == 0
+}
+
 func c22Run(raw json.RawMessage) (res Result, err error) {
 	var in c22In
 	if err = json.Unmarshal(raw, &in); err != nil {
@@ -131,14 +150,14 @@ func c22Run(raw json.RawMessage) (res Result, err error) {
 		return res, err
 	}
 	res.Obs = obs
-	res.Coq = cq.Rec(cq.F("k_fmult", cq.Z(int64(in.FMult))), cq.F("k_fsuffix", cq.Str(in.FSuffix)),
+	res.Coq = cq.Rec(cq.F("k_off", cq.Z(int64(in.Zone))), cq.F("k_fmult", cq.Z(int64(in.FMult))), cq.F("k_fsuffix", cq.Str(in.FSuffix)),
 		cq.F("k_cmult", cq.Z(int64(in.CMult))), cq.F("k_csuffix", cq.Str(in.CSuffix)),
 		cq.F("k_ticks", c21CoqInput(&in.Ticks)),
 		cq.F("k_codeA", cq.Nat(obs.A.Code)), cq.F("k_outA", c21CoqRows(obs.A.Rows)),
 		cq.F("k_codeB", cq.Nat(obs.B.Code)), cq.F("k_outB", c21CoqRows(obs.B.Rows)),
 		cq.F("k_codeC", cq.Nat(obs.C.Code)), cq.F("k_outC", c21CoqRows(obs.C.Rows)))
 
-	tin := &c21In{Kind: "tick", Mult: in.FMult, Suffix: in.FSuffix, Chunks: []c21Chunk{in.Ticks}}
+	tin := &c21In{Kind: "tick", Mult: in.FMult, Suffix: in.FSuffix, Zone: in.Zone, Chunks: []c21Chunk{in.Ticks}}
 	rows, wellFormed := c21Ticks(tin)
 	hasNaN, zeroTime := false, false
 	zt := new(big.Int).Mul(big.NewInt(c21ZeroTimeUnix), big.NewInt(1000000000))
@@ -153,7 +172,8 @@ func c22Run(raw json.RawMessage) (res Result, err error) {
 	}
 	divides := c22Divides(&in) && (in.FSuffix != "D" || in.FMult == 1) && (in.CSuffix != "D" || in.CMult == 1)
 	distinct := c21Distinct(rows)
-	res.InDomain = wellFormed && divides && distinct && !hasNaN && !zeroTime
+	zoneOK := c22ZoneOK(&in)
+	res.InDomain = wellFormed && divides && zoneOK && distinct && !hasNaN && !zeroTime
 	res.Holds = true
 	if wellFormed && divides && !zeroTime { // "all row sets and all pairs of timeframes where one divides the other"
 		switch {
@@ -166,11 +186,19 @@ func c22Run(raw json.RawMessage) (res Result, err error) {
 		}
 		if !res.Holds && hasNaN {
 			res.Class = "nan-price"
+		} else if !res.Holds && !zoneOK {
+			res.Class = "zone-offset-splits-fine-window"
 		}
 	}
 	res.Nontrivial = res.InDomain && len(rows) >= 3 && len(obs.A.Rows) >= 2
 	res.Tags = []string{"fine:" + fmt.Sprintf("%d%s", in.FMult, in.FSuffix), "coarse:" + fmt.Sprintf("%d%s", in.CMult, in.CSuffix),
 		fmt.Sprintf("rows=%d", bucket(len(rows))), fmt.Sprintf("fine-candles=%d", bucket(len(obs.A.Rows))), fmt.Sprintf("coarse-candles=%d", bucket(len(obs.C.Rows)))}
+	if in.Zone != 0 {
+		res.Tags = append(res.Tags, fmt.Sprintf("zone=%+d", in.Zone))
+	}
+	if !zoneOK {
+		res.Tags = append(res.Tags, "zone-not-multiple-of-fine")
+	}
 	if divides {
 		res.Tags = append(res.Tags, "divides")
 	} else {
